@@ -32,7 +32,10 @@ DEFAULTS = ['n:', 'i:0', 'i:3', 'f:1.5', 'f:3.0', 'f:3.7', 's:abc', 's:', 's:3',
 # (keys with a Unicode twin: precomposed / combining accent, MICRO SIGN / Greek mu, the fi
 # ligature, a fullwidth letter - distinct strings, hence distinct keys)
 KEYS = ['a', 'b', 'c', 'ab', 'A', 'f', 'x_y', 'k-1', 'caf\u00e9', '\u00b5_max', 'file']
-ABSENT = ['zz', 'a', 'b', 'B', 'abc', 'x-y', 'new1', 'cafe\u0301', '\u03bc_max', '\ufb01le', '\uff41', 'a ']
+# (16 entries, one per selector value; names that are keys of many documents come several
+# times: operating on a name that WAS a key a moment ago needs them)
+ABSENT = ['zz', 'a', 'b', 'B', 'abc', 'x-y', 'new1', 'cafe\u0301', '\u03bc_max', '\ufb01le', '\uff41', 'a ',
+          'a', 'b', 'c', 'ab']
 TEXT_VALUES = ['[1, 2]', '{p: 1}', 'plain', '7', '[]', '{}', '0x1F']
 OP_TABLE = (['has_attribute'] * 2 + ['get_attribute'] * 4 + ['set_attribute'] * 5
             + ['remove_attribute'] * 2 + ['rename_attribute'] * 2 + ['has_attribute_type'] * 3
@@ -411,6 +414,7 @@ class NodeModel(Engine):
         root_model = mirror(ynode, {})
         handles = [Handle(yatiml.Node(ynode), root_model)]
         fresh_names = ['n0', 'n1', 'n2', 'n3', 'n4', 'n5']
+        self._last_name = None      # the key the previous operation named
         mutations = 0
         executed = []
         try:
@@ -474,6 +478,8 @@ class NodeModel(Engine):
         op = {'op': kind, 'h': h}
         if ksel % 4 < 3:
             op['k'] = ['idx', ksel // 4]
+        elif ksel % 8 == 7:
+            op['k'] = ['last', ABSENT[(ksel // 4) % len(ABSENT)]]
         else:
             op['k'] = ['name', ABSENT[(ksel // 4) % len(ABSENT)]]
         if kind == 'set_attribute':
@@ -537,8 +543,13 @@ class NodeModel(Engine):
         keys = [k.value for k, _ in m.value]
         if sel[0] == 'idx':
             if keys:
+                self._last_name = keys[sel[1] % len(keys)]
                 return keys[sel[1] % len(keys)], True
             return 'zz', False
+        if sel[0] == 'last' and self._last_name is not None:
+            # the name the previous operation used (after a rename or removal: the old name)
+            return self._last_name, self._last_name in keys
+        self._last_name = sel[1]
         return sel[1], sel[1] in keys
 
     def step(self, op, handles, stats, fresh_names):
